@@ -593,7 +593,7 @@ func gen(g *hx.Gen) {
 	r := g.R
 	now := uint64(time.Now().Unix())
 	w := newWorld(r, now)
-	nFiles := g.Count(1500, 40000)
+	nFiles := g.Count(1500, 20000)
 	for i := 0; i < nFiles; i++ {
 		maxLines, mal := 20, 1
 		if i%5 == 4 { // malformed stream: short files, frequent bad lines
@@ -608,7 +608,7 @@ func gen(g *hx.Gen) {
 	}
 	// the two points where the code's decision is not the property's (OpenSSH's) — model answers per the
 	// property for exactly this op class; disagreements are listed in known_findings.txt
-	nP := g.Count(60, 2000)
+	nP := g.Count(60, 1000)
 	for i := 0; i < nP; i++ {
 		t := newIDs()
 		hostKey, other := w.keys[r.Intn(3)].pub, w.keys[3+r.Intn(2)].pub
@@ -730,6 +730,31 @@ func gen(g *hx.Gen) {
 			g.Emit("skf file=%s kt=%s host=%s port=%s", hx.Hex(file), ktStr(t), hx.Hex([]byte(q.h)), q.p)
 		}
 	}
+	// "lines produced by Line and HashHostname … are found by ssh-keygen -F": the real Line / HashHostname
+	// output is written to a file and looked up with ssh-keygen; the model predicts the matching lines
+	nSKL := g.Count(40, 1500)
+	for i := 0; i < nSKL; i++ {
+		k := hx.Pick(r, w.keys).pub
+		t := newIDs()
+		t.addBlob(k.Marshal())
+		lowerHosts := []string{"a", "ab", "host", "host1", "x.example.com", "10.0.0.1", "::1", "fe80::1"}
+		var addrs []string
+		mode := "line"
+		n := r.Range(1, 3)
+		if i%2 == 1 {
+			mode, n = "hash", 1
+		}
+		for j := 0; j < n; j++ {
+			h, p := hx.Pick(r, lowerHosts), r.PickStr("22", "22", "2222")
+			if strings.Contains(h, ":") || r.Chance(1, 5) {
+				addrs = append(addrs, "["+h+"]:"+p)
+			} else {
+				addrs = append(addrs, h+":"+p)
+			}
+		}
+		g.Stat("skl." + mode + "-found-by-ssh-keygen")
+		g.Emit("skl mode=%s addrs=%s type=%s blob=%s salt=%s kt=%s key=%d", mode, hexList(addrs), hx.Hex([]byte(k.Type())), hx.Hex(k.Marshal()), hx.Hex(r.Bytes(20)), ktStr(t), t.id(k))
+	}
 	// wildcardMatch, small-scope exhaustive: every pattern over {a,b,*,?} of length 1..5 that contains a
 	// wildcard against every host over {a,b} of length 0..7 (one file line per pattern, the answer for a host
 	// is the set of matching lines), plus self-overlapping / domain-shaped patterns with pumped hosts —
@@ -832,7 +857,7 @@ func gen(g *hx.Gen) {
 		}
 	}
 	// Line / HashHostname round trips and outputs
-	nAux := g.Count(800, 20000)
+	nAux := g.Count(800, 10000)
 	for i := 0; i < nAux; i++ {
 		k := hx.Pick(r, w.keys).pub
 		t := newIDs()
@@ -843,6 +868,7 @@ func gen(g *hx.Gen) {
 			for j := r.Range(1, 3); j > 0; j-- {
 				addrs = append(addrs, genAddr(r))
 			}
+			g.Stat("aux.line-output")
 			g.Emit("line addrs=%s type=%s blob=%s", hexList(addrs), hx.Hex([]byte(k.Type())), hx.Hex(k.Marshal()))
 		case 1: // Line then query each address
 			var addrs []string
@@ -862,18 +888,21 @@ func gen(g *hx.Gen) {
 				qs = append(qs, fmt.Sprintf("%s/%s/%d", hx.Hex([]byte(a)), hx.Hex([]byte("1.1.1.1:22")), t.id(k)))
 			}
 			qs = append(qs, fmt.Sprintf("%s/%s/%d", hx.Hex([]byte(genAddr(r))), hx.Hex([]byte("1.1.1.1:22")), t.id(k)))
+			g.Stat("aux.line-then-query")
 			g.Emit("lq now=%d addrs=%s type=%s blob=%s kt=%s certs=- q=%s", now, hexList(addrs), hx.Hex([]byte(k.Type())), hx.Hex(k.Marshal()), ktStr(t), strings.Join(qs, ","))
 		case 2:
+			g.Stat("aux.hashhostname-output")
 			g.Emit("hh host=%s salt=%s", hx.Hex([]byte(genAddr(r))), hx.Hex(r.Bytes(20)))
 		case 3: // HashHostname(Normalize(a)) then query a and another address
 			a := genAddr(r)
 			qs := []string{fmt.Sprintf("%s/%s/%d", hx.Hex([]byte(a)), hx.Hex([]byte("1.1.1.1:22")), t.id(k)),
 				fmt.Sprintf("%s/%s/%d", hx.Hex([]byte(genAddr(r))), hx.Hex([]byte("1.1.1.1:22")), t.id(k))}
+			g.Stat("aux.hashhostname-then-query")
 			g.Emit("hq now=%d host=%s salt=%s type=%s blob=%s kt=%s certs=- q=%s", now, hx.Hex([]byte(a)), hx.Hex(r.Bytes(20)), hx.Hex([]byte(k.Type())), hx.Hex(k.Marshal()), ktStr(t), strings.Join(qs, ","))
 		}
 	}
 	// stand-in validation: SplitHostPort / Normalize / base64
-	nStd := g.Count(2400, 100000)
+	nStd := g.Count(2400, 50000)
 	for i := 0; i < nStd; i++ {
 		switch i % 3 {
 		case 0:
@@ -1072,6 +1101,42 @@ func execKeygen(o hx.Op) string {
 	return "lines:" + goLines + " keygen:" + hx.JoinInts(kg)
 }
 
+// execSKL: the real Line / HashHostname output, looked up through the callback and through ssh-keygen -F
+func execSKL(o hx.Op) string {
+	k, err := ssh.ParsePublicKey(o.Hex("blob"))
+	if err != nil {
+		panic(err)
+	}
+	addrs := strList(o, "addrs")
+	var file string
+	if o.Str("mode") == "hash" {
+		file = hashHostname(knownhosts.Normalize(addrs[0]), o.Hex("salt")) + " " + string(o.Hex("type")) + " " + base64.StdEncoding.EncodeToString(o.Hex("blob"))
+	} else {
+		file = knownhosts.Line(addrs, k)
+	}
+	fn := tmpFile([]byte(file + "\n"))
+	defer os.Remove(fn)
+	cb, err := knownhosts.New(fn)
+	if err != nil {
+		return "parse-err:1"
+	}
+	var out []string
+	for _, a := range addrs {
+		v := verdict(cb(a, strAddr("10.9.9.9:22"), k))
+		res, _ := osexec.Command("ssh-keygen", "-F", strings.ToLower(knownhosts.Normalize(a)), "-f", fn).Output()
+		var kg []int
+		for _, l := range strings.Split(string(res), "\n") {
+			if i := strings.Index(l, " found: line "); strings.HasPrefix(l, "# Host ") && i > 0 {
+				if n, err := strconv.Atoi(strings.Fields(l[i+len(" found: line "):])[0]); err == nil {
+					kg = append(kg, n)
+				}
+			}
+		}
+		out = append(out, v+"/k:"+hx.JoinInts(kg))
+	}
+	return strings.Join(out, "|")
+}
+
 // execWM: for every host, the lines whose pattern matches it (KeyError.Want for a key that is not in the file)
 func execWM(o hx.Op) string {
 	cb, err := load(o.Hex("file"))
@@ -1126,6 +1191,8 @@ func exec(line string) string {
 		return execKeygen(o)
 	case "wm":
 		return execWM(o)
+	case "skl":
+		return execSKL(o)
 	case "lq":
 		k, err := ssh.ParsePublicKey(o.Hex("blob"))
 		if err != nil {
